@@ -31,6 +31,9 @@ func (ex *Exec) coerce(v Val, target types.Type) Val {
 		}
 		return Val{I(0), target}
 	}
+	if _, isTP := target.(*types.TypeParam); isTP {
+		return v
+	}
 	if isInterface(target) && v.Typ != nil && !isInterface(v.Typ) {
 		return Val{ex.box(v), target}
 	}
@@ -222,7 +225,9 @@ func (ex *Exec) globalAxioms(v *types.Var, c *T) {
 	if types.Identical(v.Type(), types.Universe.Lookup("error").Type()) {
 		// sentinel error: non-nil, distinct from other sentinels (index-based identity)
 		idx := ex.prog.sentinelIndex(v)
-		ex.declAxiom(c.String()+"$sentinel", Eq(c, I(int64(100+idx))))
+		t := Const("t", SInt)
+		ex.declAxiom(c.String()+"$sentinel", And(Eq(c, I(int64(100+idx))), App("errIs", SBool, c, c),
+			Forall([]string{"t"}, Imp(App("errIs", SBool, c, t), Eq(t, c)), App("errIs", SBool, c, t))))
 		return
 	}
 	// byte slice globals with literal initialiser
@@ -356,6 +361,9 @@ func (ex *Exec) fieldPath(base Val, path []int, baseStr string) Val {
 			pt := cur.Typ.Underlying().(*types.Pointer).Elem()
 			v := Select(ex.get(ex.st, ex.heapKey(pt, f)), cur.T)
 			ex.assume(ex.typeFact(f.Type(), v))
+			if isPointer(f.Type()) || isInterface(f.Type()) {
+				ex.assume(Lt(v, ex.get(ex.st, "$alloc")))
+			}
 			cur = Val{v, f.Type()}
 		} else {
 			cur = Val{ex.vfield(cur.T, cur.Typ, f), f.Type()}
@@ -762,7 +770,7 @@ func (ex *Exec) concat(a, b *T) *T {
 	k := Const("k", SInt)
 	ex.assume(And(Lt(I(1), base),
 		Forall([]string{"k"}, Imp(And(Le(I(0), k), Lt(k, SLen(a))), Eq(App("memB", SInt, base, k), App("memB", SInt, SBase(a), Add(SOff(a), k)))), App("memB", SInt, base, k)),
-		Forall([]string{"k"}, Imp(And(Le(I(0), k), Lt(k, SLen(b))), Eq(App("memB", SInt, base, Add(SLen(a), k)), App("memB", SInt, SBase(b), Add(SOff(b), k)))), App("memB", SInt, base, Add(SLen(a), k)))))
+		Forall([]string{"k"}, Imp(And(Le(SLen(a), k), Lt(k, n)), Eq(App("memB", SInt, base, k), App("memB", SInt, SBase(b), Add(SOff(b), Sub(k, SLen(a)))))), App("memB", SInt, base, k))))
 	return r
 }
 
